@@ -525,6 +525,15 @@ func (s *Sim) forced() bool {
 				s.unpark(p)
 				return true
 			}
+			if c.WriteBlocked && c.Broken != 1 && c.Broken != 2 && !c.wdl.IsZero() && !now.Before(c.wdl) {
+				op.n, op.err = 0, c.errTimeout("write")
+				c.stalled = true
+				s.W.Trouble()
+				s.W.Probe("blocked_write_timed_out")
+				s.W.Ev("write", c.id, "%s conn%d blocked write: deadline", p.g, c.id)
+				s.unpark(p)
+				return true
+			}
 		}
 	}
 	return false
@@ -547,6 +556,11 @@ func (s *Sim) collect() []Action {
 				acts = append(acts, a)
 			}
 		case pkWrite:
+			if c := p.op.(*writeOp).c; c.WriteBlocked && c.Broken != 1 && c.Broken != 2 {
+				// the peer takes nothing: the write ends with its
+				// deadline, a local close or the reset (forced)
+				continue
+			}
 			acts = append(acts, s.writeAction(p))
 		case pkDial:
 			acts = append(acts, s.dialAction(p))
